@@ -59,6 +59,66 @@ fn graceful_end(h: &History, a: u32) -> bool {
         || matches!(&ar.joined, Some((_, _, JoinRes::Failed { phase, killed: false, .. })) if phase == "OnStop")
 }
 
+
+/// Was the message of this send-family operation *definitely* put into the mailbox in the very poll in
+/// which the operation was invoked? True when, at that moment, at most capacity-1 slots could be occupied,
+/// no other sender was waiting, the cooperative budget was available, and the actor had not begun to end:
+/// tokio's fair semaphore then grants the permit immediately. (Used where acceptance of an ask cannot be
+/// observed through its result: timed-out or cancelled asks.)
+pub fn accepted_at_invocation(h: &History, o: &OpRec) -> bool {
+    let a = match o.a {
+        Some(a) => a,
+        None => return false,
+    };
+    let ar = &h.actors[a as usize];
+    if !o.budget || !ar.spawned || o.inv_seq >= ar.closing_seq() || matches!(o.res(), Some(Res::NoHandle) | Some(Res::Unsupported) | Some(Res::ErrSend)) {
+        return false;
+    }
+    let cap = h.cap_of(a) as i64;
+    let s = o.inv_seq;
+    // upper bound on occupancy at s: every send invoked before s whose message has not been taken before s
+    let mut occ_hi = 0i64;
+    for p in h.ops.iter().filter(|p| p.a == Some(a) && p.inv_seq < s && !std::ptr::eq(*p, o)) {
+        if matches!(p.res(), Some(Res::NoHandle) | Some(Res::Unsupported)) {
+            continue;
+        }
+        if p.tag.is_send() {
+            // rejected before s: never entered
+            if let Some((rs, _, _, res, _)) = &p.ret {
+                if *rs < s && matches!(res, Res::ErrSend) {
+                    continue;
+                }
+                if *rs < s && p.tag.is_tell() && matches!(res, Res::ErrTimeout { .. }) {
+                    continue;
+                }
+            }
+            let taken_before = p.mid.and_then(|m| h.msgs.get(&m)).and_then(|m| m.henter.first()).map(|x| x.0 < s).unwrap_or(false);
+            if taken_before {
+                continue;
+            }
+            // still waiting for a slot, or queued
+            if p.end_seq().map(|e| e > s).unwrap_or(true) && !(p.tag.is_tell() && p.ret_ok()) {
+                // an operation still in flight at s might be a waiter: not definite
+                if p.tag.is_tell() || !taken_before {
+                    // asks in flight may be queued (occupying) or waiting; either way count and flag
+                    occ_hi += 1;
+                    if p.tag.is_tell() {
+                        return false; // a tell still in flight is a waiter for a slot
+                    }
+                    continue;
+                }
+            }
+            occ_hi += 1;
+        } else if p.tag == OpTag::Stop {
+            if p.end_seq().map(|e| e > s).unwrap_or(true) {
+                return false; // a stop still waiting for a slot
+            }
+            occ_hi += 1;
+        }
+    }
+    occ_hi < cap
+}
+
 // =================================================================================================
 // C01 / C02
 
@@ -111,14 +171,23 @@ pub fn c01_c02(c: &mut Ctx) {
             let mid = o.mid.unwrap();
             let (ret_seq, ok) = match &o.ret {
                 Some(r) => (r.0, r.3.is_ok()),
-                None => continue,
+                None => (o.cancelled.map(|c| c.0).unwrap_or(u64::MAX), false),
             };
-            if !ok {
-                continue;
-            }
-            // definitely accepted before stop() was requested / before the last reference went away
-            // (the sender itself holds a reference until its send returns)
-            let definite = if o.tag.is_tell() { first_stop_inv.map(|s| ret_seq < s).unwrap_or(true) && ret_seq < stop_enter } else { true };
+            let definite = if ok {
+                // definitely accepted before stop() was requested / before the last reference went away
+                // (the sender itself holds a reference until its send returns)
+                if o.tag.is_tell() {
+                    first_stop_inv.map(|s| ret_seq < s).unwrap_or(true) && ret_seq < stop_enter
+                } else {
+                    true
+                }
+            } else if o.tag.is_ask() && (o.cancelled.is_some() || matches!(o.res(), Some(Res::ErrTimeout { .. }))) {
+                // an ask that was abandoned (timeout, cancellation) after its message had definitely entered
+                // the mailbox: the message is accepted work all the same
+                o.inv_seq < stop_enter && first_stop_inv.map(|s| o.inv_seq < s).unwrap_or(true) && accepted_at_invocation(h, o)
+            } else {
+                false
+            };
             if !definite {
                 continue;
             }
